@@ -7,7 +7,6 @@ use std::panic::AssertUnwindSafe;
 use vh::*;
 
 const MAXU: u64 = u64::MAX;
-const KNOWN: &str = "set_at_usize_max";
 
 #[derive(Clone, Debug, PartialEq)]
 enum V {
@@ -207,7 +206,7 @@ fn col_state(st: &ColumnStore, k: u64) -> Option<(bool, usize)> {
     st.get_column(&key(k)).map(|c| (c.is_dense(), c.len()))
 }
 
-fn run_case(out: &mut Out, items: &[Item], ranges: &[(u64, u64)], keys: &[u64], known: bool) -> bool {
+fn run_case(out: &mut Out, items: &[Item], ranges: &[(u64, u64)], keys: &[u64]) -> bool {
     let idx = out.next_index();
     if !out.wants(idx) {
         out.skip();
@@ -230,6 +229,9 @@ fn run_case(out: &mut Out, items: &[Item], ranges: &[(u64, u64)], keys: &[u64], 
         let ops = expand(&it.m);
         for o in &ops {
             nops += 1;
+            if matches!(o, Op::Set(r, _, _) if *r == MAXU) {
+                out.count("set_at_row_usize_max");
+            }
             let (tk, before) = match o {
                 Op::Set(_, k, _) | Op::Remove(_, k) => (Some(*k), col_state(&st, *k)),
                 Op::Clear(_) => (None, None),
@@ -380,11 +382,7 @@ fn run_case(out: &mut Out, items: &[Item], ranges: &[(u64, u64)], keys: &[u64], 
     );
     let i = out.case(g, human.clone(), !items.is_empty());
     if let Some(b) = &oc.bad {
-        let cls = if known && oc.panicked { Some(KNOWN) } else { None };
-        if cls.is_some() {
-            out.count("known_panic");
-        }
-        out.fail(i, &human, b, cls);
+        out.fail(i, &human, b, None);
     }
     oc.panicked
 }
@@ -405,7 +403,7 @@ fn small_value(r: &mut Rng) -> V {
 fn small_case(out: &mut Out, r: &mut Rng) {
     let n = r.range(1, 14);
     let far = r.chance(1, 6);
-    let row = |r: &mut Rng| if far && r.chance(1, 4) { *r.pick(&[1u64 << 40, MAXU - 1, 1_000_000]) } else { r.range(0, 5) };
+    let row = |r: &mut Rng| if far && r.chance(1, 4) { *r.pick(&[1u64 << 40, MAXU - 1, MAXU, 1_000_000]) } else { r.range(0, 5) };
     let mut items = Vec::new();
     for _ in 0..n {
         let (rr, k) = (row(r), r.range(0, 2));
@@ -417,7 +415,7 @@ fn small_case(out: &mut Out, r: &mut Rng) {
         let probe_r = if r.chance(2, 3) { rr } else { row(r) };
         items.push(Item { m: Mop::One(o), pr: probe_r, pk: if r.chance(2, 3) { k } else { r.range(0, 3) } });
     }
-    run_case(out, &items, &[(0, 7)], &[0, 1, 2, 3], false);
+    run_case(out, &items, &[(0, 7)], &[0, 1, 2, 3]);
 }
 
 /// a history built around one column that goes dense
@@ -439,7 +437,7 @@ fn dense_case(out: &mut Out, r: &mut Rng, big: bool) {
         0 => 0,
         1 => r.range(1, 40),
         2 => 1_100_000 + r.range(0, 999),
-        3 => MAXU - count * stride - r.range(0, 3), // top of the span just below usize::MAX
+        3 => MAXU - (count - 1) * stride - r.range(0, 3), // top of the span at or just below usize::MAX
         _ => r.range(2000, 60000),
     };
     let top = base + (count - 1) * stride;
@@ -462,7 +460,7 @@ fn dense_case(out: &mut Out, r: &mut Rng, big: bool) {
     let mut hi = top;
     let mut far_rows: Vec<u64> = Vec::new();
     for _ in 0..nfollow {
-        let inside = |r: &mut Rng| lo + r.below(hi - lo + 1);
+        let inside = |r: &mut Rng| lo + r.below((hi - lo).saturating_add(1));
         let (m, pr) = match r.below(20) {
             0 | 1 => {
                 let rr = inside(r);
@@ -471,7 +469,7 @@ fn dense_case(out: &mut Out, r: &mut Rng, big: bool) {
             2 | 3 => {
                 // just above the span
                 let d = *r.pick(&[1u64, 1, 2, 5, 64, 500, 3000]);
-                if hi < MAXU - 1 - d {
+                if hi <= MAXU - d {
                     let rr = hi + d;
                     hi = rr; // may or may not extend; the dump ranges only use it as a hint
                     (Mop::One(Op::Set(rr, k, fill_value(vk, rr))), rr)
@@ -503,7 +501,7 @@ fn dense_case(out: &mut Out, r: &mut Rng, big: bool) {
                 (Mop::One(Op::Remove(rr, k)), rr)
             }
             11 => {
-                let rr = *r.pick(&[lo.saturating_sub(1), hi.saturating_add(1).min(MAXU - 1), 0, MAXU - 1, MAXU]);
+                let rr = *r.pick(&[lo.saturating_sub(1), hi.saturating_add(1), 0, MAXU - 1, MAXU]);
                 (Mop::One(Op::Remove(rr, k)), rr)
             }
             12 => {
@@ -518,7 +516,7 @@ fn dense_case(out: &mut Out, r: &mut Rng, big: bool) {
             14 => {
                 // refill a stretch: in a sparse column this re-enters maybe_promote on overwrites too
                 let s = inside(r);
-                let c = r.range(2, 1100).min((MAXU - 1 - s) / stride.max(1));
+                let c = r.range(2, 1100).min((MAXU - s) / stride.max(1));
                 hi = hi.max(s + (c.max(1) - 1) * stride);
                 (Mop::Fill { k, start: s, count: c.max(1), stride, vk }, s)
             }
@@ -529,7 +527,7 @@ fn dense_case(out: &mut Out, r: &mut Rng, big: bool) {
             }
             16 => {
                 // a value of another type: the column spills to Other
-                let rr = if r.chance(1, 2) { inside(r) } else { hi.saturating_add(2).min(MAXU - 1) };
+                let rr = if r.chance(1, 2) { inside(r) } else { hi.saturating_add(2) };
                 let v = if r.chance(1, 4) { V::Null } else { fill_value((vk + 1 + r.below(4)) % 5, rr) };
                 (Mop::One(Op::Set(rr, k, v)), rr)
             }
@@ -539,7 +537,7 @@ fn dense_case(out: &mut Out, r: &mut Rng, big: bool) {
             }
             _ => {
                 // extend contiguously so the length reaches the next power of two
-                let c = r.range(1, 1100).min((MAXU - 1 - hi) / stride.max(1));
+                let c = r.range(1, 1100).min((MAXU - hi) / stride.max(1));
                 if c == 0 {
                     let rr = inside(r);
                     (Mop::One(Op::Remove(rr, k)), rr)
@@ -550,55 +548,67 @@ fn dense_case(out: &mut Out, r: &mut Rng, big: bool) {
                 }
             }
         };
-        let pr = if r.chance(3, 4) { pr } else { lo + r.below(hi - lo + 1) };
+        let pr = if r.chance(3, 4) { pr } else { lo + r.below((hi - lo).saturating_add(1)) };
         let pk = if r.chance(5, 6) { k } else { other_k };
         items.push(Item { m, pr, pk });
     }
     // dump ranges: around the bottom, the middle, the top, the far rows; sometimes the whole span
     let mut ranges: Vec<(u64, u64)> = Vec::new();
-    let span = hi - lo + 1;
+    let span = (hi - lo).saturating_add(1);
     if span <= 2500 && r.chance(1, 2) {
-        ranges.push((lo.saturating_sub(3), (span + 6).min(MAXU - lo.saturating_sub(3))));
+        ranges.push((lo.saturating_sub(3), (span + 6).min((MAXU - lo.saturating_sub(3)).saturating_add(1))));
     } else {
-        ranges.push((lo.saturating_sub(8), 48.min(MAXU - lo.saturating_sub(8))));
+        ranges.push((lo.saturating_sub(8), 48.min((MAXU - lo.saturating_sub(8)).saturating_add(1))));
         let mid = lo + span / 2;
-        ranges.push((mid, 40.min(MAXU - mid)));
+        ranges.push((mid, 40.min((MAXU - mid).saturating_add(1))));
         let t = hi.saturating_sub(24);
-        ranges.push((t, 48.min(MAXU - t)));
-        ranges.push((base.saturating_sub(4), 40.min(MAXU - base.saturating_sub(4))));
+        ranges.push((t, 48.min((MAXU - t).saturating_add(1))));
+        ranges.push((base.saturating_sub(4), 40.min((MAXU - base.saturating_sub(4)).saturating_add(1))));
     }
     for f in far_rows.iter().take(3) {
         ranges.push((f.saturating_sub(1), 3));
     }
-    run_case(out, &items, &ranges, &[0, 1, 2], false);
+    run_case(out, &items, &ranges, &[0, 1, 2]);
 }
 
-/// the three overflow sites, all needing a set at row usize::MAX
-fn known_cases(out: &mut Out) -> Vec<(String, bool)> {
-    let mut res = Vec::new();
+/// the three span computations that overflowed before the repair, and a plain set at usize::MAX
+fn edge_cases(out: &mut Out) {
     let mk = |m: Mop, pr: u64| Item { m, pr, pk: 0 };
-    // (a) dense with base 0, then row MAX: idx - base + 1
+    // dense with base 0, then row MAX: (idx - base).saturating_add(1)
     let a = vec![
         mk(Mop::Fill { k: 0, start: 0, count: 1024, stride: 1, vk: 0 }, 5),
         mk(Mop::One(Op::Set(MAXU, 0, V::Int(1))), MAXU),
+        mk(Mop::One(Op::Set(1024, 0, V::Int(2))), 7),
+        mk(Mop::One(Op::Remove(MAXU, 0)), MAXU),
     ];
-    res.push(("dense column with base 0, then set_property(usize::MAX): idx - base + 1".to_string(), run_case(out, &a, &[(0, 4)], &[0], true)));
-    // (b) dense span ending at row MAX, then a row below the base: base + values.len()
+    run_case(out, &a, &[(0, 4), (MAXU - 2, 3)], &[0]);
+    // dense span ending at row MAX, then rows below the base: (base - new_base).saturating_add(len)
     let b = vec![
         mk(Mop::Fill { k: 0, start: MAXU - 1023, count: 1024, stride: 1, vk: 0 }, MAXU),
         mk(Mop::One(Op::Set(MAXU - 1024, 0, V::Int(1))), MAXU - 1024),
+        mk(Mop::One(Op::Set(MAXU - 1030, 0, V::Int(3))), MAXU),
+        mk(Mop::One(Op::Set(0, 0, V::Int(4))), MAXU - 1024),
+        mk(Mop::One(Op::Clear(MAXU)), MAXU),
     ];
-    res.push(("dense span ending at row usize::MAX, then a set below the base: base + values.len()".to_string(), run_case(out, &b, &[(MAXU - 3, 3)], &[0], true)));
-    // (c) promotion considered with rows 0 and MAX both present: max - min + 1
+    run_case(out, &b, &[(MAXU - 1040, 1041), (0, 3)], &[0]);
+    // promotion considered with rows 0 and MAX both present: (max - min).saturating_add(1)
     let c = vec![
         mk(Mop::Fill { k: 0, start: 0, count: 1023, stride: 1, vk: 0 }, 5),
         mk(Mop::One(Op::Set(MAXU, 0, V::Int(1))), MAXU),
+        mk(Mop::One(Op::Remove(MAXU, 0)), MAXU),
+        mk(Mop::One(Op::Set(1023, 0, V::Int(1))), 1023),
     ];
-    res.push(("1024th entry of a sparse column at row usize::MAX with row 0 present: max - min + 1".to_string(), run_case(out, &c, &[(0, 4)], &[0], true)));
-    // a set at usize::MAX that does not overflow (small sparse column) must simply behave as a map
-    let d = vec![mk(Mop::One(Op::Set(MAXU, 0, V::Int(1))), MAXU), mk(Mop::One(Op::Set(3, 0, V::Int(2))), MAXU), mk(Mop::One(Op::Clear(MAXU)), MAXU)];
-    run_case(out, &d, &[(0, 5)], &[0], true);
-    res
+    run_case(out, &c, &[(0, 4), (MAXU - 2, 3)], &[0]);
+    for vk in 1..4 {
+        let d = vec![
+            mk(Mop::Fill { k: 0, start: MAXU - 2047, count: 2048, stride: 1, vk }, MAXU),
+            mk(Mop::One(Op::Set(MAXU - 2048, 0, fill_value(vk, 9))), MAXU - 2048),
+            mk(Mop::One(Op::Set(5, 0, fill_value(vk, 5))), MAXU),
+        ];
+        run_case(out, &d, &[(MAXU - 2050, 2051), (4, 3)], &[0]);
+    }
+    let e = vec![mk(Mop::One(Op::Set(MAXU, 0, V::Int(1))), MAXU), mk(Mop::One(Op::Set(3, 0, V::Int(2))), MAXU), mk(Mop::One(Op::Clear(MAXU)), MAXU)];
+    run_case(out, &e, &[(0, 5)], &[0]);
 }
 
 fn main() {
@@ -615,17 +625,7 @@ fn main() {
                 into a hash for the model and compared entry by entry with the map oracle. Non-trivial = at least one item."
         .to_string();
 
-    let replays = known_cases(&mut out);
-    let failing: Vec<&str> = replays.iter().filter(|(_, still)| *still).map(|(w, _)| w.as_str()).collect();
-    out.known.push(KnownReplay {
-        class: KNOWN.to_string(),
-        still_fails: !failing.is_empty(),
-        detail: if failing.is_empty() {
-            "none of the three stored witnesses panics any more".to_string()
-        } else {
-            format!("{} of 3 stored witnesses panic (overflow checks on): {}", failing.len(), failing.join(" | "))
-        },
-    });
+    edge_cases(&mut out);
     let (nsmall, ndense) = if args.thorough { (9000, 450) } else { (900, 36) };
     // interleave so that shards cost about the same
     let per = (nsmall / ndense).max(1);
